@@ -93,6 +93,16 @@ def run(prop, tier, seed, known):
         return [a], r, st2
     admit('numpy.unique', b_unique, [((x,), np.unique(x)) for x in arrs('any')])
 
+    # np.unique of two stacked (n, 2) blocks (the per-block statement of the same facts)
+    def b_unique2(eng, st):
+        a, b = sym_array(st, 'a', 2, 2), sym_array(st, 'b', 2, 2)
+        lst = symex.new_ref(st, symex.ListV([a, b]))
+        c, st1 = call('numpy.concatenate', eng, st, [lst], {'axis': 0})
+        r, st2 = call('numpy.unique', eng, st1, [c])
+        return [a, b], r, st2
+    pairs = [(np.array(x[:2 * (len(x) // 2)]).reshape(-1, 2), np.array(y[:2 * (len(y) // 2)]).reshape(-1, 2)) for x, y in zip(arrs('any'), arrs('any'))]
+    admit('numpy.unique(concatenate 2-D)', b_unique2, [((x, y), np.unique(np.concatenate([x, y], axis=0))) for x, y in pairs])
+
     # np.searchsorted (array of values), both sides
     for side in ('left', 'right'):
         def b_ss(eng, st, side=side):
